@@ -29,10 +29,11 @@ const (
 	dGlobalMap
 	dCallChain
 	dLockedFunc
+	dChanState
 	nDefKinds
 )
 
-var defKindName = [...]string{"named-func", "method", "closure-var", "counter-closure", "method-value", "chan-func", "defer-func", "global-counter", "global-map", "call-chain", "locked-func"}
+var defKindName = [...]string{"named-func", "method", "closure-var", "counter-closure", "method-value", "chan-func", "defer-func", "global-counter", "global-map", "call-chain", "locked-func", "chan-state"}
 
 type c10Def struct {
 	kind    int
@@ -67,6 +68,10 @@ func (d *c10Def) src(j int) string {
 		return fmt.Sprintf("var gm%d = map[int]int{0: %d}\nvar gs%d []int\nfunc Put%d(v int) int { gm%d[len(gm%d)] = v; gs%d = append(gs%d, v); return len(gm%d)*%d + len(gs%d) + gm%d[0] }", j, d.b, j, j, j, j, j, j, j, d.a, j, j)
 	case dLockedFunc:
 		return fmt.Sprintf("var lm%d sync.Mutex\nvar lw%d sync.WaitGroup\nfunc L%d(x int) int { host.Tick(%d); lm%d.Lock(); defer lm%d.Unlock(); lw%d.Add(1); defer lw%d.Done(); host.Tick(%d); s := 0; for i := 0; i < 12; i++ { s += i }; return x*%d + %d + s*0 }", j, j, j, 6100+j, j, j, j, j, 6110+j, d.a, d.b)
+	case dChanState:
+		// a package-level channel used through range and select only (the channel
+		// operations that are cancellable however the code was compiled)
+		return fmt.Sprintf("var q%d = make(chan int, 4)\nfunc Drain%d() int { n := 0; for v := range q%d { n += v }; return n }\nfunc PutGet%d(x int) int { select { case q%d <- x * %d: default: return -2 }; select { case v := <-q%d: return v + %d; default: return -1 } }", j, j, j, j, j, d.a, j, d.b)
 	case dCallChain:
 		return fmt.Sprintf("func ca%d(x int) int { return cb%d(x) + %d }\nfunc cb%d(x int) int { return cc%d(x) * %d }\nfunc cc%d(x int) int { if x > 100 { return x }; return x + 1 }", j, j, d.b, j, j, d.a, j)
 	}
@@ -97,6 +102,8 @@ func (d *c10Def) callee(j int) string {
 		return fmt.Sprintf("ca%d", j)
 	case dLockedFunc:
 		return fmt.Sprintf("L%d", j)
+	case dChanState:
+		return fmt.Sprintf("PutGet%d", j)
 	}
 	return ""
 }
@@ -104,7 +111,7 @@ func (d *c10Def) callee(j int) string {
 // model applies one call and returns the expected result.
 func (d *c10Def) model(x int) int {
 	switch d.kind {
-	case dFunc, dClosureVar, dChanFunc, dLockedFunc:
+	case dFunc, dClosureVar, dChanFunc, dLockedFunc, dChanState:
 		return x*d.a + d.b
 	case dMethod:
 		return x + d.b*d.a
@@ -314,6 +321,9 @@ func RunC10(t *testing.T, tape *Tape) *Outcome {
 						}
 						if callee == "" {
 							src = "for { host.Tick(4) }"
+						} else if target >= 0 && defs[target].kind == dChanState {
+							// blocks for ever ranging over the definition's (empty) channel
+							src = fmt.Sprintf("host.Tick(Drain%d())", target)
 						} else {
 							src = fmt.Sprintf("for { host.Tick(%s(1)) }", callee)
 						}
